@@ -7,7 +7,7 @@ These implement the knapsack-based pricing subproblem and simplex tableau operat
 
 from collections.abc import Sequence
 
-__all__ = ["knapsack_pricing", "greedy_knapsack", "simplex_phase"]
+__all__ = ["knapsack_pricing", "greedy_knapsack", "simplex_phase", "drive_out_artificials"]
 
 
 def knapsack_pricing(
@@ -155,3 +155,36 @@ def simplex_phase(
         basis_set.discard(basis[leave])
         basis[leave] = enter
         basis_set.add(enter)
+
+
+def drive_out_artificials(
+    tab: list[list[float]],
+    basis: list[int],
+    n_orig: int,
+    n_rows: int,
+    eps: float,
+) -> None:
+    """Pivot artificial variables that are still basic after phase 1 out of the basis.
+
+    Phase 1 can end with an artificial variable basic at level zero (degenerate).
+    Phase 2 never lets it leave unless its row wins the ratio test, so it may grow
+    and the returned point then violates the constraint it belongs to. A row with
+    no usable pivot is redundant and can never change, so it is left alone.
+    """
+    n_cols = len(tab[0])
+    for r in range(n_rows):
+        if basis[r] < n_orig:
+            continue
+        for j in range(n_orig):
+            if abs(tab[r][j]) > eps:
+                piv = tab[r][j]
+                for k in range(n_cols):
+                    tab[r][k] /= piv
+                for i in range(n_rows + 1):
+                    if i != r:
+                        factor = tab[i][j]
+                        if abs(factor) > eps:
+                            for k in range(n_cols):
+                                tab[i][k] -= factor * tab[r][k]
+                basis[r] = j
+                break
